@@ -1999,6 +1999,10 @@ class ReferenceManager:
 
         if new_value is None:
             new_value = old_value
+        elif (new_value is not old_value
+                and id(new_value) in self._valid_to_refs):
+            # Its own references would be lost
+            raise ValueError("new value is already referenced")
 
         if spec is not None:
             self._manager.update_spec_value(spec, new_value, kwargs)
